@@ -1104,7 +1104,7 @@ fn exec_sys_function(song: &mut Song, t: &Token) -> bool {
         if arg_count >= 1 {
             let v = match &args[0] {
                 SValue::Array(a) => a.len(),
-                SValue::Str(s, _) => s.len(),
+                SValue::Str(s, _) => s.chars().count(),
                 SValue::IntArray(a) => a.len(),
                 SValue::StrArray(a) => a.len(),
                 _ => 0
